@@ -114,6 +114,8 @@ type fakeClient struct {
 	quotaErr            bool                                    // GetUserQuota fails: documented as "do not block the connection"
 	onDial              func(i int, tunnelID, mappingID string) // set before the first connection is offered
 	dialSeq             atomic.Int32
+	quotaNow            atomic.Pointer[int] // set: the user quota currently in force (may change during a round)
+	quotaCalls          atomic.Int32
 	// real != nil: GetUserQuota / CheckMappingQuota are the REAL TunnoxClient's (quota cache + Management API
 	// client); only the network-facing parts stay doubles
 	real *client.TunnoxClient
@@ -159,6 +161,14 @@ func (f *fakeClient) TrackTraffic(string, int64, int64) error { return nil }
 func (f *fakeClient) GetUserQuota() (*models.UserQuota, error) {
 	if f.real != nil {
 		return f.real.GetUserQuota()
+	}
+	if sc := f.quotaNow.Load(); sc != nil {
+		// the quota source answers what is in force NOW (-1: the lookup fails)
+		f.quotaCalls.Add(1)
+		if *sc < 0 {
+			return nil, errors.New("quota service unavailable")
+		}
+		return &models.UserQuota{MaxConnections: *sc}, nil
 	}
 	if n := f.rendezvous.Load(); n > 0 {
 		f.arrived.Add(1)
